@@ -44,16 +44,32 @@ fn is_pure_(expr: &Expression_) -> bool {
 /// operand removes ` <op> operand` without crossing a parenthesis
 /// boundary. It is `None` for the leftmost operand, which has no left
 /// sibling.
+///
+/// `delete_to` is where that deletion should end: the operand itself,
+/// or the outermost parentheses that contain nothing but the operand.
+/// It is `None` for the first operand of a parenthesised chain, which
+/// can't be removed by deleting up to its end.
 struct Operand<'a> {
     expr: &'a Expression,
     delete_from: Option<&'a Position>,
+    delete_to: Option<&'a Position>,
+}
+
+/// What lies between an operand and its left sibling.
+#[derive(Clone, Copy)]
+enum Enclosing<'a> {
+    Nothing,
+    /// Only parentheses, the outermost at this position.
+    Parentheses(&'a Position),
+    /// Parentheses that also contain other operands.
+    ParenthesizedChain,
 }
 
 /// Collect operands from a boolean chain, returning them as references
 /// to the inner expressions. For `a || b || c`, this returns `[a, b, c]`.
 fn collect_operands<'a>(expr: &'a Expression, op_sym: &BinaryOperatorSymbol) -> Vec<Operand<'a>> {
     let mut result = Vec::new();
-    collect_operands_(expr, op_sym, None, &mut result);
+    collect_operands_(expr, op_sym, None, Enclosing::Nothing, &mut result);
     result
 }
 
@@ -61,21 +77,39 @@ fn collect_operands_<'a>(
     expr: &'a Expression,
     op_sym: &BinaryOperatorSymbol,
     delete_from: Option<&'a Position>,
+    enclosing: Enclosing<'a>,
     result: &mut Vec<Operand<'a>>,
 ) {
     match &expr.expr_ {
         Expression_::BinaryOperator(lhs, op, rhs) if op == op_sym => {
-            collect_operands_(lhs, op_sym, delete_from, result);
+            let lhs_enclosing = match enclosing {
+                Enclosing::Nothing => Enclosing::Nothing,
+                _ => Enclosing::ParenthesizedChain,
+            };
+            collect_operands_(lhs, op_sym, delete_from, lhs_enclosing, result);
             // The right operand's left sibling is the whole left
             // subtree, so deletions start at its end (after any closing
             // parenthesis), not at the previous flattened operand.
-            collect_operands_(rhs, op_sym, Some(&lhs.position), result);
+            collect_operands_(rhs, op_sym, Some(&lhs.position), Enclosing::Nothing, result);
         }
         Expression_::Parentheses(paren) => {
-            collect_operands_(&paren.expr, op_sym, delete_from, result);
+            let enclosing = match enclosing {
+                Enclosing::Nothing => Enclosing::Parentheses(&expr.position),
+                _ => enclosing,
+            };
+            collect_operands_(&paren.expr, op_sym, delete_from, enclosing, result);
         }
         _ => {
-            result.push(Operand { expr, delete_from });
+            let delete_to = match enclosing {
+                Enclosing::Nothing => Some(&expr.position),
+                Enclosing::Parentheses(position) => Some(position),
+                Enclosing::ParenthesizedChain => None,
+            };
+            result.push(Operand {
+                expr,
+                delete_from,
+                delete_to,
+            });
         }
     }
 }
@@ -109,10 +143,12 @@ impl Visitor for RepeatedBoolVisitor {
                             // Build a fix that removes ` || operand` by
                             // deleting from the end of the operand's left
                             // sibling to the end of this operand.
-                            let fixes = if let Some(delete_from) = operand.delete_from {
+                            let fixes = if let (Some(delete_from), Some(delete_to)) =
+                                (operand.delete_from, operand.delete_to)
+                            {
                                 // Start where the left sibling ends, keeping the
                                 // line and column in step with the offset.
-                                let mut fix_pos = expr.position.clone();
+                                let mut fix_pos = delete_to.clone();
                                 fix_pos.start_offset = delete_from.end_offset;
                                 fix_pos.line_number = delete_from.end_line_number;
                                 fix_pos.column = delete_from.end_column;
